@@ -577,6 +577,15 @@ Theorem C19_json_string_injective_on_valid_utf8 :
 Proof. exact json_esc_injective_clean. Qed.
 Print Assumptions C19_json_string_injective_on_valid_utf8.
 
+(* The annotations object of a manifest (json_ann: sorted keys, escaped strings) reads back -- read_obj,
+   encoding/json's object syntax on what the encoder produces -- as the requested annotations, coerced to
+   UTF-8, in key order, whatever follows it in the document: for the part of the manifest the caller
+   controls freely the premise json_roundtrip is a theorem. *)
+Theorem C19_json_annotations_roundtrip :
+  forall l rest, read_obj (json_ann l ++ rest) = Some (san_ann (kv_sort l), rest).
+Proof. exact json_ann_roundtrip. Qed.
+Print Assumptions C19_json_annotations_roundtrip.
+
 (* ... so Pack with the real marshalling is independent of the order of the manifest annotations. *)
 Theorem C19_annotation_order_independent_json :
   forall (H : str -> str), H empty_json = empty_json_digest ->
